@@ -43,6 +43,9 @@
 #ifndef SV_THROWDEF
 #  define SV_THROWDEF 0
 #endif
+#ifndef SV_SIZET
+#  define SV_SIZET std::size_t      // allocator size_type (narrow types drive the integer-promotion paths)
+#endif
 
 using namespace svmon;
 
@@ -50,9 +53,9 @@ typedef SV_T ElemT;
 #if SV_ALLOC == 0
 typedef std::allocator<ElemT> AllocT;
 #elif SV_ALLOC == 2
-typedef FancyLedgerAlloc<ElemT, ACfg<SV_POCCA, SV_POCMA, SV_POCS, SV_AE, std::size_t, 0, 0, 0, SV_SOCCC> > AllocT;
+typedef FancyLedgerAlloc<ElemT, ACfg<SV_POCCA, SV_POCMA, SV_POCS, SV_AE, SV_SIZET, 0, 0, 0, SV_SOCCC> > AllocT;
 #else
-typedef LedgerAlloc<ElemT, ACfg<SV_POCCA, SV_POCMA, SV_POCS, SV_AE, std::size_t, 0, SV_CONSTRUCT, SV_THROWDEF, SV_SOCCC> > AllocT;
+typedef LedgerAlloc<ElemT, ACfg<SV_POCCA, SV_POCMA, SV_POCS, SV_AE, SV_SIZET, 0, SV_CONSTRUCT, SV_THROWDEF, SV_SOCCC> > AllocT;
 #endif
 typedef HistEngine<ElemT, AllocT, SV_NA, SV_NB> Engine;
 
